@@ -483,7 +483,56 @@ func checkRates(c *hl.Ctx) {
 // ---------------------------------------------------------------------------
 // enumeration
 
+// retention: the tag body returned by Encode stays what it was when further frames are encoded.
+func retention(c *hl.Ctx) {
+	ap, _ := flv.NewAudioPackager()
+	vp, _ := flv.NewVideoPackager()
+	type enc func() ([]byte, error)
+	var items []enc
+	for _, n := range []int{0, 1, 40, 300} {
+		n := n
+		items = append(items,
+			func() ([]byte, error) {
+				return ap.Encode(&flv.AudioFrame{SoundFormat: flv.AudioCodecAAC, SoundRate: 3, SoundSize: 1, SoundType: 1, Trait: 1, Raw: hl.Pattern(n, 1)})
+			},
+			func() ([]byte, error) {
+				return ap.Encode(&flv.AudioFrame{SoundFormat: 2, SoundRate: 1, Raw: hl.Pattern(n, 2)})
+			},
+			func() ([]byte, error) {
+				f := flv.NewVideoFrame()
+				f.FrameType, f.CodecID, f.Trait, f.CTS, f.Raw = 1, flv.VideoCodecAVC, 1, 0x010203, hl.Pattern(n, 3)
+				return vp.Encode(f)
+			},
+			func() ([]byte, error) {
+				f := flv.NewVideoFrame()
+				f.FrameType, f.CodecID, f.Raw = 2, 2, hl.Pattern(n, 4)
+				return vp.Encode(f)
+			})
+	}
+	for ai, a := range items {
+		for bi, b := range items {
+			if !c.Mine(ai*len(items) + bi) {
+				continue
+			}
+			c.Eval()
+			ba, err := a()
+			if err != nil {
+				continue
+			}
+			keep := append([]byte{}, ba...)
+			b()
+			b()
+			if !bytes.Equal(ba, keep) {
+				c.Violation("retention/encoded-body-overwritten", fmt.Sprintf("the tag body returned by Encode (item %d) changed after another frame (item %d) was encoded: was %s, is %s", ai, bi, hl.Hex(keep), hl.Hex(ba)), map[string]interface{}{"part": "retention", "a": ai, "b": bi})
+				return
+			}
+			c.Nontrivial(fmt.Sprint("ret", ai, bi))
+		}
+	}
+}
+
 func run(c *hl.Ctx) {
+	retention(c)
 	ap, _ = flv.NewAudioPackager()
 	vp, _ = flv.NewVideoPackager()
 
